@@ -130,6 +130,16 @@ def analyse(F, fn):
                     r["used"] = False
                     r["bad_path"] = r["bad_path"] or "%s on a path with %d events" % (esc, len(ev))
                 esc2 = escapes(ranged)
+                if esc2 and kind == "WideMul128":
+                    # exported as a U128MulGuarantee: a returned group holding exactly (lhs, rhs, high, low) of this hint
+                    quad = set(e.args)
+                    for x in ev:
+                        if x.kind == "build" and x.groups:
+                            for gl in x.groups.values():
+                                for grp in gl:
+                                    if len(grp) == 4 and set(grp) == quad:
+                                        esc2 = None
+                                        r["guarantee"] = True
                 if esc2:
                     r["ranged"] = False
                     r["returned"] = r["returned"] or esc2.startswith("returned")
@@ -138,28 +148,15 @@ def analyse(F, fn):
 
 
 def pinned(L, B, v, rc_vars, alloc_out, ev, _depth=0):
-    """A value is pinned when it is computed only from inputs/constants and hint outputs that are
-    themselves range checked (directly or through a derived value) somewhere in the listing."""
+    """A value is *determined* when it is computed only from inputs and constants, i.e. no free hint
+    output lies on its backward slice (allocation addresses excepted).  A range check bounds a value but
+    does not determine it, so range-checked hint outputs do not count here."""
     for src in L.origin_closure(v):
         if src in L.hint_outputs:
             i, kind = L.hint_outputs[src]
             if kind in ALLOC_HINTS:
                 continue
-            D = L.derived_from(src)
-            ok = False
-            for j, x in enumerate(ev):
-                if x.kind == "buf_write" and x.args[1] in D and L.definitions.get(j) != x.args[1] and \
-                        (L.origin_closure(x.args[0]) & rc_vars):
-                    ok = True
-                    break
-                if x.kind == "build" and set(x.args) & D:
-                    ok = True      # handed on (e.g. inside a guarantee); its own obligation decides that
-                    break
-                if x.kind == "helper" and set(x.args) & D:
-                    ok = True
-                    break
-            if not ok:
-                return False
+            return False
     return True
 
 
